@@ -9,7 +9,9 @@ ObjectSet controller's phase loop composed with the real delegated-phase behavio
 ObjectSet that existed before the pass paused — the visited phases through
 `objectSetRemotePhaseReconciler.Reconcile`, the phases behind a failing phase through
 `SyncPaused` (fix C09-a) — whatever the phase objects have reported so far, whichever phase the pass
-stops at, for every list of phases (local / delegated in any order, repeated names included).
+stops at, for every list of phases (local / delegated in any order, repeated names included); and,
+since fix C09-b hands the pause over at the head of the pass, whatever ERROR the pass ends in
+(`any_paused_pass_pauses_every_phase_object`).
 The monitor clause `paused-pass-left-phase-object-unpaused` of `Pko.Drv.SysMon` is this statement
 on the implementation's traces.
 Core Lean only.
@@ -385,6 +387,35 @@ theorem paused_pass_pauses_every_phase_object (cfg : Cfg) (o : OSet) (hp : o.lif
           simp only [w', afterPhases, hr, hp, if_true, syncPausedAfter, remotes]
         rw [hw']
         exact (hsync _ r.1).1 m h1
+
+/-- **the hand-over at the head of the pass** (fix C09-b): before anything else a paused ObjectSet
+pauses every existing phase object of its delegated phases. -/
+theorem hand_over_pauses_every_phase_object (o : OSet) (hp : o.lifecycle = .paused) (w : World) :
+    (∀ ph ∈ o.phases, ph.cls ≠ "" → ExistsAt (phaseName o ph) w →
+      PausedAt (phaseName o ph) (beforePhases remotes o w)) ∧
+    (∀ m, PausedAt m w → PausedAt m (beforePhases remotes o w)) := by
+  have hb : beforePhases remotes o w =
+      (o.phases.filter (·.cls ≠ "")).foldl (fun w ph => remoteSyncPaused o ph w) w := by
+    simp only [beforePhases, hp, if_true, remotes]
+  obtain ⟨s1, _, s3⟩ := sync_fold o hp (o.phases.filter (·.cls ≠ "")) w
+  rw [hb]
+  refine ⟨?_, s1⟩
+  intro ph hph hcls hex
+  exact s3 ph (by rw [List.mem_filter]; exact ⟨hph, by simpa using hcls⟩) hex
+
+/-- **C09 for delegated phases, every pass.** Whatever one pass of the phases reconciler over a
+PAUSED ObjectSet runs into afterwards — a failing probe, a preflight violation, a collision or any
+other error in any phase — every phase object of a delegated phase that existed before the pass is
+paused when the pass ends (`beforePhases`, then the loop, then `afterPhases`). -/
+theorem any_paused_pass_pauses_every_phase_object (cfg : Cfg) (o : OSet) (hp : o.lifecycle = .paused)
+    (prev : List Prev) (w : World) (acc : List CRef) :
+    let w0 := beforePhases remotes o w
+    let r := reconcilePhases cfg o.owner prev (remoteReconcile o) o.phases w0 acc
+    ∀ ph ∈ o.phases, ph.cls ≠ "" → ExistsAt (phaseName o ph) w →
+      PausedAt (phaseName o ph) (afterPhases remotes o r.2 r.1) := by
+  intro w0 r ph hph hcls hex
+  have h0 := (hand_over_pauses_every_phase_object o hp w).1 ph hph hcls hex
+  exact (paused_pass_pauses_every_phase_object cfg o hp prev w0 acc).2 _ h0
 
 /-- Non-vacuity: a paused ObjectSet whose pass stops at its first (local) phase, with an un-paused
 phase object of the delegated phase behind it: after the pass that phase object is paused. -/
